@@ -94,7 +94,7 @@ impl Vm {
     { unimplemented!() }
 
     // Calling a closure with arg_count arguments sitting above the callee slot.
-    //@fn file=yarel/src/vm.rs path=Vm::call_closure ret=r props=C07,C02
+    //@fn file=yarel/src/vm.rs path=Vm::call_closure ret=r props=C07,C02,C08
     //@  rewrite R1 R11
     //@  requires closure.obj().function.obj().arity >= 1, arg_count < old(self).fib.stack.view.len(), old(self).fib.stack.view.len() < 0x1000_0000, old(self).fib.frames@.len() >= 1, old(self).fib.frames@.len() <= FRAMES_MAX
     //@  ensures @wrong_argument_count_is_a_type_error arg_count != closure.obj().function.obj().arity - 1 ==> final(self).raised == Some(ErrorKind::TypeError)
@@ -107,7 +107,7 @@ impl Vm {
     //@end
 
     // Calling any value.
-    //@fn file=yarel/src/vm.rs path=Vm::call_value ret=r props=C07,C02
+    //@fn file=yarel/src/vm.rs path=Vm::call_value ret=r props=C07,C02,C08
     //@  rewrite R1
     //@  requires arg_count < old(self).fib.stack.view.len(), old(self).fib.stack.view.len() < 0x1000_0000, old(self).fib.frames@.len() >= 1, old(self).fib.frames@.len() <= FRAMES_MAX
     //@  requires forall|c: Gc<ObjClosure>| (#[trigger] c.obj()).function.obj().arity >= 1
